@@ -2058,10 +2058,14 @@ parse_citation:
 				print_const("</td>\n");
 			}
 
-			if (t->next) {
-				scratch->table_cell_count += t->next->len;
+			// Columns beyond kMaxTableColumns have no alignment of their own, so stop
+			// counting there (a wider table would overflow the short counter)
+			size_t cells = t->next ? t->next->len : 1;
+
+			if ((scratch->table_cell_count >= kMaxTableColumns) || (cells >= kMaxTableColumns)) {
+				scratch->table_cell_count = kMaxTableColumns;
 			} else {
-				scratch->table_cell_count++;
+				scratch->table_cell_count += cells;
 			}
 
 			break;
